@@ -326,6 +326,7 @@ _G = {}
 
 def _work(i):
     ctx, table, batches, timeout_ms = _G['ctx'], _G['table'], _G['batches'], _G['timeout']
+    ctx.interps.clear()
 
     def go():
         q = [0]
@@ -364,18 +365,29 @@ def run(tier, seed, only=None):
     ctx = common.Ctx()
     timeout_ms = 60000 if tier == 'quick' else 600000
     table = witness.load_table()
-    budget, maxdepth = (3, 2) if tier == 'quick' else (4, 3)
+    budget, maxdepth = 3, 2
     skels = []
     for stmts in gen_stmts(budget, 0, maxdepth):
         if not stmts:
             continue
         skels.append(('skel:' + repr(stmts), (lambda st: (lambda L: L.lower(st)))(stmts)))
     total = len(skels)
-    cap = int(os.environ.get('VERIF_C01_CAP', '240' if tier == 'quick' else '6000'))
     rnd = random.Random(seed)
-    if len(skels) > cap:
-        # the enumeration is complete for the bound; the quick tier checks a seed-chosen subset of it and says so
-        skels = rnd.sample(skels, cap)
+    big_total = 0
+    if tier == 'quick':
+        cap = int(os.environ.get('VERIF_C01_CAP', '240'))
+        if len(skels) > cap:
+            # the enumeration is complete for the bound; the quick tier checks a seed-chosen subset of it and says so
+            skels = rnd.sample(skels, cap)
+    else:
+        # thorough: the WHOLE enumeration at the small bound, plus a seed-chosen sample of the next bound (4 statements, nesting 3)
+        big = []
+        for stmts in gen_stmts(4, 0, 3):
+            if stmts:
+                big.append(stmts)
+        big_total = len(big)
+        for stmts in rnd.sample(big, min(len(big), int(os.environ.get('VERIF_C01_BIG', '1500')))):
+            skels.append(('skel4:' + repr(stmts), (lambda st: (lambda L: L.lower(st)))(stmts)))
     typed = [('typed:' + n, f) for n, f in typed_skeletons()]
     if only:
         skels = [x for x in skels if x[0] in only]
@@ -417,8 +429,8 @@ def run(tier, seed, only=None):
     gl = [(n, sp) for n, sp in gen.generated(tier, seed, n_quick=12) if not only or n in only]
     if gl:
         pc.run_parallel(ctx, report, check_generated, [(n, sp, table, timeout_ms) for n, sp in gl])
-    report.bounds = {'generated': gen.bounds_text(tier, len(gl)), 'skeletons': 'statement grammar {op, nop, return, unreachable, br d, br_if d, br_table, block, loop, if, if/else}, <= %d statements, nesting <= %d, all admissible branch depths: %d skeletons in the bound, %d checked in this run (%s) + %d typed shapes (result/multi-value/type-index block types, empty multi-value sequences, dead blocks, return_call, locals)' % (
-        budget, maxdepth, total, len(skels), 'all' if len(skels) == total else 'subset chosen by VERIF_SEED', len(typed)),
+    report.bounds = {'generated': gen.bounds_text(tier, len(gl)), 'skeletons': 'statement grammar {op, nop, return, unreachable, br d, br_if d, br_table, block, loop, if, if/else}, <= %d statements, nesting <= %d, all admissible branch depths: %d skeletons in the bound, %d checked in this run (%s; thorough: all of them plus a seed-chosen sample of the %d skeletons with <= 4 statements / nesting <= 3) + %d typed shapes (result/multi-value/type-index block types, empty multi-value sequences, dead blocks, return_call, locals)' % (
+        budget, maxdepth, total, len(skels), 'all' if len(skels) >= total else 'subset chosen by VERIF_SEED', big_total, len(typed)),
         'per module': '8 functions + 1 imported function, 6 types; constants are symbolic tags'}
     report.assumptions = ['execution is not performed: behaviour preservation is reduced to structural equality modulo the five rewrites listed in DESIGN.md C01 (trusted wasm-semantics facts)',
                           'the description is valid (validator calls succeed)', 'walrus may keep or drop syntactically dead code']
